@@ -61,6 +61,14 @@ void harness(void)
   /* blocking calls may wait for a child that never acts again: that is the child's
    * doing (C17 second sentence); with the nonblocking option nothing may wait */
   vp_hang_allowed = !o.nonblocking;
+#ifdef VP_F
+  /* injected failures of read()/write() themselves (EINTR included): the call may return
+   * that error, but the stream must stay usable and no byte may be lost or duplicated */
+  vp_faults_left = VP_F;
+  vp_eintr_on = true;
+#else
+#define VP_F 0
+#endif
 
   for (int it = 0; it < VP_R; it++) {
     int op = vp_choice(0, 2);
@@ -100,6 +108,9 @@ void harness(void)
         VP_ASSERT(C02, rcv[s] == nsent, "closed-stream error before all of the stream's data was delivered");
         VP_ASSERT(C02, child_end_gone(pp, false), "closed-stream error while the child still has the stream open");
         open_s[s] = false;
+      } else if (VP_F > 0 && vp_faults_left < VP_F && r != REPROC_EWOULDBLOCK) {
+        /* the injected failure was reported; the stream must stay open (checked by what
+         * later reads return) */
       } else {
         VP_ASSERT(C17, r == REPROC_EWOULDBLOCK && o.nonblocking,
                   "read fails with something other than closed-stream / would-block");
@@ -121,6 +132,7 @@ void harness(void)
         wb[i] = (uint8_t) vp_byte();
       }
       bool full_before = pin >= 0 && vp_pp_len[pin] >= VP_CAP;
+      size_t room_before = pin >= 0 ? (size_t) (VP_CAP - vp_pp_len[pin]) : 0;
       int r = reproc_write(p, wb, size);
       if (!open_s[0]) {
         VP_ASSERT(C02, r == REPROC_EPIPE, "write after stdin was closed does not return the closed-stream error");
@@ -137,13 +149,15 @@ void harness(void)
       } else if (r == REPROC_EPIPE) {
         VP_ASSERT(C02, child_end_gone(pin, true), "closed-stream error on write while the child still has stdin open");
         open_s[0] = false;
+      } else if (VP_F > 0 && vp_faults_left < VP_F && r != REPROC_EWOULDBLOCK) {
+        /* injected failure reported */
       } else {
         VP_ASSERT(C17, r == REPROC_EWOULDBLOCK && o.nonblocking && full_before,
                   "write fails with would-block although there was room (or in blocking mode)");
       }
       VP_ASSERT(C17, !o.nonblocking || !vp_blocked, "nonblocking write waited for the child");
-      VP_ASSERT(C17, o.nonblocking || !vp_blocked || full_before || size > VP_CAP,
-                "blocking write waited although the pipe had room");
+      VP_ASSERT(C17, o.nonblocking || !vp_blocked || size > room_before,
+                "blocking write waited although the pipe had room for all of it");
       cov[4] = cov[4] || (r > 0 && (size_t) r < size);
       cov[5] = cov[5] || (r == 3 && vp_blocked);
       cov[6] = cov[6] || (r == REPROC_EPIPE);
